@@ -795,6 +795,13 @@ func (c *provCtx) walk(v ssa.Value, idx int) {
 						return
 					}
 				}
+				// element of a slice literal (an ordered candidate table)
+				if elems, ok := sliceLitElems(a.X); ok && len(elems) > 0 {
+					for _, ev := range elems {
+						c.walk(ev, idx)
+					}
+					return
+				}
 			case *ssa.FreeVar:
 				if cell := freeVarCell(a); cell != nil {
 					sts := storesToCell(cell)
@@ -1359,6 +1366,8 @@ func describe(v ssa.Value) string {
 }
 
 func describeOrigin(o *Origin) string {
+	lastBadOrigin = o // the offending origin the obligation being built is about (see definiteOrigin)
+
 	if o == nil {
 		return "<no origin>"
 	}
